@@ -160,6 +160,7 @@ type runConfig struct {
 	verbose bool
 	seed    int64
 	prop    string
+	tables  bool
 	propsFile string
 }
 
@@ -200,6 +201,7 @@ func run(cfg runConfig) (*runResult, error) {
 		return nil, err
 	}
 	e := newEngine(lr, db)
+	e.repoDir = cfg.repo
 	if err := e.initGlobals(lr.order); err != nil {
 		return nil, err
 	}
@@ -265,6 +267,18 @@ func run(cfg runConfig) (*runResult, error) {
 		o := e.lemmaObligation(lm)
 		o.Props = cfg.props
 		e.obls = append(e.obls, o)
+	}
+	if cfg.prop == "C05" || cfg.tables {
+		td := e.loadTables(cfg.repo)
+		if td.err != nil {
+			res.errors = append(res.errors, td.err.Error())
+		}
+	}
+	if e.tables != nil {
+		for _, o := range e.tables.obls {
+			o.Props = []string{"C05"}
+		}
+		e.obls = append(e.obls, e.tables.obls...)
 	}
 	res.obls = e.obls
 	if os.Getenv("VCGO_NOPROVE") != "" {
@@ -433,6 +447,7 @@ func cmdCheck(args []string) int {
 	replayDir := fs.String("replaydir", "/verif/replay", "directory for violation/replay files")
 	seed := fs.Int64("seed", 0, "seed")
 	cpuprof := fs.String("cpuprofile", "", "write cpu profile")
+	tablesFlag := fs.Bool("tables", false, "check the generator tables (ground obligations)")
 	_ = fs.Parse(args)
 	if *cpuprof != "" {
 		f, _ := os.Create(*cpuprof)
@@ -440,7 +455,7 @@ func cmdCheck(args []string) int {
 		defer pprof.StopCPUProfile()
 	}
 	outDir = *out
-	cfg := runConfig{repo: *repo, specDir: *spec, funcs: *funcs, tier: *tier, timeout: *timeout, tags: *tags, verbose: *verbose, prop: *prop, propsFile: *propsFile, seed: *seed}
+	cfg := runConfig{repo: *repo, specDir: *spec, funcs: *funcs, tier: *tier, timeout: *timeout, tags: *tags, verbose: *verbose, prop: *prop, propsFile: *propsFile, seed: *seed, tables: *tablesFlag}
 	if *props != "" {
 		cfg.props = strings.Split(*props, ",")
 	}
